@@ -45,9 +45,19 @@ def _T(s):
     return s.choice([0.0, 0.01, 0.02, 0.05])
 
 
+def _grid(s, P, pts):
+    # grids of equal length and different values (a cache keyed on len(xx) must collide)
+    r = s.random()
+    if r < 0.65:
+        return P.add('grid', pts)
+    if r < 0.85:
+        return P.add('grid_exp', pts)
+    return P.add('grid_exp', pts, 4.0)
+
+
 def g_chain1d(s, P):
     pts = s.choice(PTS)
-    xx = P.add('grid', pts) if s.chance(0.85) else P.add('grid_exp', pts)
+    xx = _grid(s, P, pts)
     kw = {}
     if s.chance(0.5):
         kw = dict(nu=s.choice([0.5, 1.0, 2.0]), gamma=s.choice([0, -2.0, 3.0]), h=s.choice([0.5, 0.2]))
@@ -111,7 +121,7 @@ def _spec_tail(s, P, fs, ns):
 
 def g_chain2d(s, P):
     pts = s.choice(PTS)
-    xx = P.add('grid', pts)
+    xx = _grid(s, P, pts)
     phi = P.add('phi_1D', xx, **({'nu': s.choice([0.5, 2.0])} if s.chance(0.3) else {}))
     phi = P.add('phi_1D_to_2D', xx, phi)
     for _ in range(s.randint(1, 2)):
@@ -334,7 +344,7 @@ def g_numerics(s, P):
         elif r < 0.8:
             P.add('multinomln', [s.randint(0, 4) for _ in range(3)])
         elif r < 0.9:
-            xx = P.add(s.choice(['grid', 'grid_exp']), s.choice([6, 8, 8, 10]))
+            xx = _grid(s, P, s.choice([6, 8, 8, 10]))
             P.add('cached_dbeta', s.choice(NS), xx)
         else:
             a = P.add('mk_array', s.randint(0, 3), [6, 4])
